@@ -139,6 +139,10 @@ def run(R):
     # convergence of mutable kinds goes through the same validate/compare/merge functions the replication path calls (rules shared with C07)
     from props.C07 import merge_rules
     merge_rules(R, "C09.converge")
+    # "accepted" must mean "held": a record whose store call answered Ok is on disk and in the index, and a failed write leaves no
+    # trace (index, cache, file) that would make the next delivery of the same record look stored (rules of C01, evaluated here)
+    import props.C01 as _C01
+    R.import_rules("C01", _C01.run, ["C01.remove", "C01.failed-write", "C01.mark-after-write", "C01.mark.", "C01.arm.always", "C01.cache-shortcut"], "C09.held")
     tir = R.body("C09.advertise", TIR)
     if tir is not None:
         prep(tir)
